@@ -161,6 +161,12 @@ func main() {
 // composeProps: C01 and C02 state theorems about the models of the individual consumers, so their runs also
 // re-check the correspondence of those models (capped per model, see corrCap).
 func composeProps() {
+	if c03xHook != nil {
+		c03xHook()
+	}
+	if c05xHook != nil {
+		c05xHook()
+	}
 	add := func(target string, from ...string) {
 		t, ok := props[target]
 		if !ok {
